@@ -535,6 +535,41 @@ let rec sx_json s : json =
   | ("obj", kvs) -> JObj (L.map (function Ls [k; v] -> (sx_bytes k, sx_json v) | _ -> failwith "bad member") kvs)
   | (h, _) -> failwith ("bad json " ^ h)
 
+(* the same syntax, printed *)
+let rec show_json (j : json) : string =
+  match j with
+  | JNull -> "null"
+  | JBool b -> if b then "(bool 1)" else "(bool 0)"
+  | JNum t -> "(num " ^ hex t ^ ")"
+  | JStr t -> "(str " ^ hex t ^ ")"
+  | JArr l -> "(arr" ^ String.concat "" (L.map (fun x -> " " ^ show_json x) l) ^ ")"
+  | JObj kvs -> "(obj" ^ String.concat "" (L.map (fun (k, v) -> " (" ^ hex k ^ " " ^ show_json v ^ ")") kvs) ^ ")"
+
+(* a document argument: the AST itself, or `(text xTEXT)` = the JSON text, read by the model's own reader
+   (JsonRead.json_of_text: serde_json's grammar, escapes, UTF-8 check, recursion limit 128). A text the reader rejects is
+   Err -- what the crate answers for unreadable JSON *)
+let json_arg (s : sx) : json Base.result =
+  match s with
+  | Ls [A "text"; t] -> JsonRead.json_of_text (sx_bytes t)
+  | _ -> Base.Ok (sx_json s)
+(* the graph of a document argument: for a text, SchemaMut::from_str as stated in the theorems
+   (JsonReadSchema.parse_schema_text = json_of_text, then Parse.parse_schema) *)
+let schema_arg (s : sx) : mnode list Base.result =
+  match s with
+  | Ls [A "text"; t] -> JsonReadSchema.parse_schema_text (sx_bytes t)
+  | _ -> Parse.parse_schema (sx_json s)
+
+(* jsonread xTEXT -> (ok AST xCOMPACT) | (err) : the model's JSON reader alone; COMPACT = Json.json_text of the AST *)
+let cmd_jsonread (a : sx list) : string =
+  match a with
+  | [t] ->
+      (match JsonRead.json_of_text (sx_bytes t) with
+       | Base.Ok j -> "(ok " ^ show_json j ^ " " ^ hex (json_text j) ^ ")"
+       | Base.Err _ -> "(err)"
+       | Base.OutOfFuel -> "(outoffuel)"
+       | _ -> "(unmodelled)")
+  | _ -> failwith "jsonread: arguments"
+
 let show_name (n : name) = hex n.nm_full
 let show_node (n : mnode) : string =
   let ty = (match n.m_type with
@@ -556,19 +591,23 @@ let show_node (n : mnode) : string =
   "(node " ^ ty ^ " " ^ lt ^ ")"
 let show_schema (g : mnode list) = "(schema" ^ String.concat "" (L.map (fun n -> " " ^ show_node n) g) ^ ")"
 
-(* parse JSONAST -> (ok NODES xPCF xFP xJSONTEXT xSPECPCF) *)
+(* parse JSONAST | parse (text xTEXT) -> (ok NODES xPCF xFP xJSONTEXT xSPECPCF)
+   JSONTEXT: the compact print of the document as read (number tokens as written) *)
 let cmd_parse (a : sx list) : string =
   match a with
   | [j] ->
-      let doc = sx_json j in
-      (match Parse.parse_schema doc with
+      (match schema_arg j with
        | Ok g ->
-           (match CanonicalForm.canonical_form fuel_big g, CanonicalForm.fingerprint fuel_big g with
-            | Ok t, Ok f ->
-                "(ok " ^ show_schema g ^ " " ^ hex t ^ " " ^ hex f ^ " " ^ hex (json_text doc) ^ " "
-                ^ hex (PcfSpec.pcf (nat_of_int 2000) None doc) ^ ")"
-            | _ -> "(cf-err)")
+           (match json_arg j with
+            | Ok doc ->
+                (match CanonicalForm.canonical_form fuel_big g, CanonicalForm.fingerprint fuel_big g with
+                 | Ok t, Ok f ->
+                     "(ok " ^ show_schema g ^ " " ^ hex t ^ " " ^ hex f ^ " " ^ hex (json_text doc) ^ " "
+                     ^ hex (PcfSpec.pcf (nat_of_int 2000) None doc) ^ ")"
+                 | _ -> "(cf-err)")
+            | _ -> "(inconsistent)")
        | Err _ -> "(err data)"
+       | OutOfFuel -> "(outoffuel)"
        | _ -> "(unmodelled)")
   | _ -> failwith "parse: arguments"
 
@@ -926,8 +965,8 @@ let cmd_ccr (a : sx list) : string =
            (match header_meta entries with
             | Ok ((json, codec), user) ->
                 let fs = (match head schsrc with
-                          | ("json", [j]) ->
-                              (match Parse.parse_schema (sx_json j) with
+                          | ("text", [_]) | ("json", [_]) ->
+                              (match (match schsrc with Ls [A "json"; j] -> schema_arg j | _ -> schema_arg schsrc) with
                                | Ok g -> (match freeze_nodes (nat_of_int (L.length g)) g with Ok fs -> Some fs | _ -> None)
                                | _ -> None)
                           | ("schema", _) -> (match frozen schsrc with Ok fs -> Some fs | _ -> None)
@@ -982,6 +1021,7 @@ let run_case (line : string) : string =
          | "cr" -> cmd_cr args
          | "fileparse" -> cmd_fileparse args
          | "parse" -> cmd_parse args
+         | "jsonread" -> cmd_jsonread args
          | "hist" -> cmd_hist args
          | "sos" -> cmd_sos args
          | "sod" -> cmd_sod args
